@@ -6,7 +6,7 @@ Lemma set_tomb_id : forall r b, r_id (set_tomb r b) = r_id r.
 Proof. reflexivity. Qed.
 
 Lemma set_tomb_same : forall r, set_tomb r (r_tomb r) = r.
-Proof. intros [i n t f o]. reflexivity. Qed.
+Proof. intros [i n t f m o]. reflexivity. Qed.
 
 Lemma flip_length : forall id b rs, length (flip id b rs) = length rs.
 Proof. intros. unfold flip. apply map_length. Qed.
@@ -39,7 +39,7 @@ Proof.
   rewrite <- (map_id rs) at 2. apply map_ext_in. intros r Hin.
   destruct (N.eqb (r_id r) id) eqn:E.
   - rewrite set_tomb_id, E. apply N.eqb_eq in E. specialize (H r Hin E).
-    destruct r as [i n t f o]. simpl in *. subst t. reflexivity.
+    destruct r as [i n t f m o]. simpl in *. subst t. reflexivity.
   - rewrite E. reflexivity.
 Qed.
 
@@ -79,9 +79,9 @@ Theorem success_effective_before_fix_refuted :
   exists f id b ft f', set_tombstone_before_fix f id b ft = (f', Ok tt) /\
     exists rs' r, effective f' = Some rs' /\ In r rs' /\ r_id r = id /\ r_tomb r <> b.
 Proof.
-  exists (mkFs (Some (mkShard [mkRepo 7 1 false [] 0] [])) None 0), 7%N, true, RenameFails.
+  exists (mkFs (Some (mkShard [mkRepo 7 1 false [] [] 0] [])) None 0), 7%N, true, RenameFails.
   eexists. split; [reflexivity|].
-  exists [mkRepo 7 1 false [] 0], (mkRepo 7 1 false [] 0).
+  exists [mkRepo 7 1 false [] [] 0], (mkRepo 7 1 false [] [] 0).
   split; [reflexivity|]. split; [left; reflexivity|]. split; [reflexivity|]. simpl. discriminate.
 Qed.
 
@@ -106,7 +106,7 @@ Theorem set_isolated : forall f id b ft f' rs,
   exists rs', effective f' = Some rs' /\ length rs' = length rs /\
     forall i r, nth_error rs i = Some r ->
       exists r', nth_error rs' i = Some r' /\
-        r_id r' = r_id r /\ r_name r' = r_name r /\ r_ftombs r' = r_ftombs r /\ r_other r' = r_other r /\
+        r_id r' = r_id r /\ r_name r' = r_name r /\ r_ftombs r' = r_ftombs r /\ r_meta r' = r_meta r /\ r_other r' = r_other r /\
         (r_id r <> id -> r' = r) /\ (r_id r = id -> r_tomb r' = b).
 Proof.
   intros f id b ft f' rs H E. apply set_ok_inv in H. destruct H as [_ [rs0 [E0 ->]]].
@@ -236,16 +236,16 @@ Proof.
 Qed.
 
 Lemma simp_repo_eval : forall rs p r d, In r rs -> r_tomb r = false ->
-  eval (simp_repo rs p) r d = p (r_name r).
+  eval (simp_repo rs p) r d = p (key_of r).
 Proof.
   intros rs p r d Hin Ht. unfold simp_repo.
   assert (Ha : In r (alive rs)) by (apply alive_In; auto).
-  destruct (length (filter (fun r0 => p (r_name r0)) (alive rs)) =? length (alive rs)) eqn:E1.
+  destruct (length (filter (fun r0 => p (key_of r0)) (alive rs)) =? length (alive rs)) eqn:E1.
   - apply Nat.eqb_eq in E1. simpl. symmetry.
-    apply (filter_all_length (fun r0 => p (r_name r0)) _ E1 r Ha).
-  - destruct (0 <? length (filter (fun r0 => p (r_name r0)) (alive rs))) eqn:E2; [reflexivity|].
+    apply (filter_all_length (fun r0 => p (key_of r0)) _ E1 r Ha).
+  - destruct (0 <? length (filter (fun r0 => p (key_of r0)) (alive rs))) eqn:E2; [reflexivity|].
     apply Nat.ltb_ge in E2. simpl. symmetry.
-    apply (filter_none_length (fun r0 => p (r_name r0)) (alive rs)); [lia|exact Ha].
+    apply (filter_none_length (fun r0 => p (key_of r0)) (alive rs)); [lia|exact Ha].
 Qed.
 
 Lemma fold_and_eval : forall a b r d, eval (fold_and a b) r d = eval a r d && eval b r d.
@@ -426,4 +426,120 @@ Proof.
     try (destruct H as [H|H]; [discriminate|apply Gen; exact H]).
   - exact Ha.
   - destruct H as [H|[i [r' [d [[] _]]]]]. discriminate.
+Qed.
+
+(** ---- "affects only that repository", at the level of RESULTS: a successful Set/UnsetTombstone on
+    repository [id] leaves the search results belonging to every other repository identical, for every query *)
+Lemma flip_nth_other : forall id b rs k r, r_id r <> id ->
+  (nth_error (flip id b rs) k = Some r <-> nth_error rs k = Some r).
+Proof.
+  intros id b rs k r Hne. unfold flip. rewrite nth_error_map.
+  destruct (nth_error rs k) as [r0|]; simpl; [|split; discriminate].
+  destruct (N.eqb (r_id r0) id) eqn:E.
+  - apply N.eqb_eq in E. split; intros H; inversion H as [H1].
+    + exfalso. apply Hne. rewrite <- H1, set_tomb_id. exact E.
+    + exfalso. apply Hne. rewrite <- H1. exact E.
+  - reflexivity.
+Qed.
+
+Lemma visible_flip_other : forall id b rs d r, r_id r <> id ->
+  (visible (flip id b rs) d = Some r <-> visible rs d = Some r).
+Proof.
+  intros id b rs d r Hne. rewrite !visible_spec. rewrite (flip_nth_other id b rs (d_repo d) r Hne). reflexivity.
+Qed.
+
+Lemma load_after_set : forall f id b ft f' v v',
+  set_tombstone f id b ft = (f', Ok tt) -> load f = Some v -> load f' = Some v' ->
+  v_docs v' = v_docs v /\ v_repos v' = flip id b (v_repos v).
+Proof.
+  intros f id b ft f' v v' H L L'. apply set_ok_inv in H. destruct H as [_ [rs [E ->]]].
+  unfold load in *. rewrite E in L. pose proof (effective_shard _ _ E) as Hsh.
+  rewrite effective_after in L' by exact Hsh. simpl in L'.
+  destruct (fs_shard f) as [sh|]; [|congruence].
+  inversion L. inversion L'. simpl. auto.
+Qed.
+
+Theorem search_isolated : forall f id b ft f' v v',
+  set_tombstone f id b ft = (f', Ok tt) -> load f = Some v -> load f' = Some v' ->
+  forall q i r d, r_id r <> id ->
+    (In (i, r, d) (search v' q) <-> In (i, r, d) (search v q)).
+Proof.
+  intros f id b ft f' v v' H L L' q i r d Hne.
+  destruct (load_after_set _ _ _ _ _ _ _ H L L') as [Hd Hr].
+  rewrite !search_spec. rewrite Hd, Hr.
+  split; intros [k [A [B [C D]]]]; exists k; repeat split; auto.
+  - apply (visible_flip_other id b (v_repos v) d r Hne). exact C.
+  - apply (visible_flip_other id b (v_repos v) d r Hne). exact C.
+Qed.
+
+Lemma flip_In_other : forall id b rs r, r_id r <> id -> (In r (flip id b rs) <-> In r rs).
+Proof.
+  intros id b rs r Hne. split; intros H.
+  - apply In_nth_error in H. destruct H as [k H]. apply (flip_nth_other id b rs k r Hne) in H.
+    eapply nth_error_In; eauto.
+  - apply In_nth_error in H. destruct H as [k H]. apply (flip_nth_other id b rs k r Hne) in H.
+    eapply nth_error_In; eauto.
+Qed.
+
+(** List, for a repository with at least one visible document: listed iff alive and a found document
+    carries its name (the Const(true) shortcut of simplifyMultiRepo is then subsumed) *)
+Lemma list_iff_found : forall v q r,
+  (exists k d, nth_error (v_docs v) k = Some d /\ visible (v_repos v) d = Some r) ->
+  (In r (list_repos v q) <->
+   In r (v_repos v) /\ r_tomb r = false /\ exists i r' d, In (i, r', d) (search v q) /\ r_name r' = r_name r).
+Proof.
+  intros v q r [k [d [Hn Hv]]]. split.
+  - intros H. apply list_spec in H. destruct H as [A [B [C|C]]]; repeat split; auto.
+    exists (N.of_nat k), r, d. split; [|reflexivity]. apply search_spec. exists k. repeat split; auto.
+    rewrite <- (simplify_eval (v_repos v) q r d A B). rewrite C. reflexivity.
+  - intros [A [B C]]. apply list_complete; auto.
+Qed.
+
+Theorem list_isolated : forall f id b ft f' v v',
+  set_tombstone f id b ft = (f', Ok tt) -> load f = Some v -> load f' = Some v' ->
+  forall q r, r_id r <> id ->
+    (exists k d, nth_error (v_docs v) k = Some d /\ visible (v_repos v) d = Some r) ->
+    (forall r', In r' (v_repos v) -> r_name r' = r_name r -> r_id r' <> id) ->
+    (In r (list_repos v' q) <-> In r (list_repos v q)).
+Proof.
+  intros f id b ft f' v v' H L L' q r Hne [k [d [Hn Hv]]] Hname.
+  destruct (load_after_set _ _ _ _ _ _ _ H L L') as [Hd Hr].
+  rewrite (list_iff_found v q r) by (exists k, d; auto).
+  rewrite (list_iff_found v' q r).
+  2:{ exists k, d. rewrite Hd, Hr. split; [exact Hn|]. apply (visible_flip_other id b _ d r Hne). exact Hv. }
+  rewrite Hr. rewrite (flip_In_other id b (v_repos v) r Hne).
+  split; intros [A [B [i [r' [d' [S N']]]]]]; repeat split; auto; exists i, r', d'; split; auto.
+  - assert (Hid : r_id r' <> id).
+    { destruct (N.eq_dec (r_id r') id) as [E|E]; [|exact E]. exfalso.
+      (* r' is found in v', so it is a (flipped) repository of v with r's name *)
+      apply search_spec in S. destruct S as [k' [_ [_ [V _]]]]. rewrite Hr in V.
+      apply visible_alive in V. destruct V as [I _]. apply flip_In in I. destruct I as [r0 [I0 E0]].
+      assert (r_name r0 = r_name r /\ r_id r0 = id) as [Hn0 Hi0].
+      { rewrite <- N'. rewrite E0. destruct (N.eqb (r_id r0) id) eqn:E1.
+        - apply N.eqb_eq in E1. split; [reflexivity|exact E1].
+        - split; [reflexivity|]. rewrite E0 in E. exact E. }
+      exact (Hname r0 I0 Hn0 Hi0). }
+    apply (search_isolated _ _ _ _ _ _ _ H L L' q i r' d' Hid). exact S.
+  - assert (Hid : r_id r' <> id).
+    { apply search_spec in S. destruct S as [k' [_ [_ [V _]]]]. apply visible_alive in V. destruct V as [I _].
+      exact (Hname r' I N'). }
+    apply (search_isolated _ _ _ _ _ _ _ H L L' q i r' d' Hid). exact S.
+Qed.
+
+(** without a visible document the listing of an UNTOUCHED repository does depend on the other tombstones:
+    repositories 1 (no documents) and 2; List(RepoSet{1}) is empty; after SetTombstone(2) it lists 1.
+    (indexData.List decides by name of found documents unless simplifyMultiRepo folds the query to TRUE.) *)
+Theorem list_isolated_without_documents_refuted :
+  exists (f : fs) (id : N) (f' : fs) (v v' : view) (q : query) (r : repo),
+    set_tombstone f id true NoFault = (f', Ok tt) /\ load f = Some v /\ load f' = Some v' /\ wf f /\
+    r_id r <> id /\ NoDup (map r_name (v_repos v)) /\
+    ~ In r (list_repos v q) /\ In r (list_repos v' q).
+Proof.
+  exists (mkFs (Some (mkShard [mkRepo 1 1 false [] [] 0; mkRepo 2 2 false [] [] 0] [mkDoc 1 0 [0%N]])) None 0), 2%N.
+  eexists. eexists. eexists. exists (QRepo (fun k => N.eqb (k_name k) 1)), (mkRepo 1 1 false [] [] 0).
+  split; [reflexivity|]. split; [reflexivity|]. split; [reflexivity|].
+  split; [split; [repeat constructor|exact I]|].
+  split; [discriminate|]. split.
+  - simpl. repeat constructor; simpl; intuition discriminate.
+  - split; [vm_compute; tauto|vm_compute; auto].
 Qed.
